@@ -56,7 +56,10 @@ def generate(rng, tier: str, index: int) -> dict:
         k['tick'] = max(k['tick'], 0.01)
     return {
         'micro_seed': rng.randint(1, 1 << 48), 'knobs': k, 'hold_conf': hc, 'hold_peer': hs, 'mode': mode, 'script': script,
-        'final': rng.choice(['silent', 'silent', 'keepalive']), 'batch': rng.choice([0, 0, 10, 300, 2000]), 'stalls': stalls,
+        # 'partial': the first octets of a message, then nothing - a read that has begun is no message: 4/0 after H all the same
+        'final': rng.choice(['silent', 'silent', 'keepalive', 'partial']), 'partial_n': rng.choice([1, 10, 16, 18, 19, 21, 30]),
+        # 'openwait' mode: the OPEN starts arriving at once and completes only at the instant chosen by open_delay
+        'open_partial': rng.choice([None, None, 1, 16, 19, 28]), 'batch': rng.choice([0, 0, 10, 300, 2000]), 'stalls': stalls,
         'openwait': rng.choice([5, 8, 20]), 'open_delay': rng.choice([-1.0, -0.2, 0.3, 3.0]),
         'window_stall': rng.choice([0.0, 0.0, 0.5, 2.0]),
         # the peer confirms the OPEN with its first KEEPALIVE only after this long (legal up to the hold time)
@@ -133,6 +136,10 @@ def execute(plan: dict) -> dict:
             return
         if i >= len(plan['script']):
             st['script_end'] = w.loop.mono
+            if plan['final'] == 'partial':
+                attrs = R.attribute(R.A_ORIGIN, b'\x00') + R.attribute(R.A_AS_PATH, R.enc_as_path([(2, [65002])], True)) + R.attribute(R.A_NEXT_HOP, bytes([10, 0, 0, 2]))
+                probes['partial_message_then_silence'] = probes.get('partial_message_then_silence', 0) + 1
+                w.after(0.3, lambda: sess.send(R.build_update(attrs=attrs, nlri=bytes([24, 203, 0, 113]))[: plan.get('partial_n', 10)], cuts=[]) if sess.state != 'closed' else None)
             if plan['final'] == 'keepalive' and H:
                 iv = max(0.5, H / 3.0 - 0.2)
 
@@ -173,6 +180,21 @@ def execute(plan: dict) -> dict:
             probes['openwait_runs'] += 1
             spk.auto_open = False
             d = plan['openwait'] + plan['open_delay']
+            if plan.get('open_partial'):
+                data = R.build_open(spk.asn, spk.hold, spk.router_id, spk.caps)
+                spk.auto_keepalive = False
+                sess.sent_open = True
+                sess.open_tx = data
+                probes['open_in_two_pieces'] = probes.get('open_in_two_pieces', 0) + 1
+                sess.send(data, cuts=[plan['open_partial']], delays=[0.02, max(0.05, d) - 0.02])
+
+                def confirm() -> None:
+                    if sess.state != 'closed' and not sess.sent_ka:
+                        sess.sent_ka = True
+                        sess.send(R.keepalive())
+
+                w.after(max(0.05, d) + 0.05, confirm)
+                return
 
             def late_open() -> None:
                 if sess.state != 'closed':
